@@ -269,11 +269,12 @@ class DFTKernel(KernelEvalBase):
             kab, dkab = self.kernel.k_and_deriv(X1[0], self.X1ctrl[1])
             kba, dkba = self.kernel.k_and_deriv(X1[1], self.X1ctrl[0])
             k = kaa * kbb + kab * kba
-            dkdX1a = dkaa * kbb + dkab * kba
+            dkdX1a = dkaa * kbb[..., None] + dkab * kba[..., None]
+            dkdX1b = dkbb * kaa[..., None] + dkba * kab[..., None]
             if nspin == 1:
-                dkdX1 = dkdX1a
+                # both channels are the same input
+                dkdX1 = dkdX1a + dkdX1b
             else:
-                dkdX1b = dkbb * kaa + dkba * kab
                 dkdX1 = np.concatenate([dkdX1a, dkdX1b], axis=0)
         else:
             k, dkdX1 = self.kernel.k_and_deriv(X1, self.X1ctrl)
